@@ -184,6 +184,25 @@ def install(world):
         return V(BOOL, z3.Or(OPT_ATTRVAL.is_none(a.term), ATTRVAL.is_alt(OPT_ATTRVAL._dt.val(a.term), 'AStr')))
     world.add_prim('is_str_val', p_is_str_val, VT.is_str_val)
 
+    def p_ws_tokens(eng, args, st, node):
+        import re as _re
+        pid, info = world.rx.pid(_re.compile('[^ \t\r\n\f]+'))
+        a = args[0]
+        if isinstance(a, V) and isinstance(a.t, TOpt):
+            a = V(a.t.inner, a.t.val(a.term))
+        return V(TSeq(STR), world.rx.findall(z3.IntVal(pid), eng.coerce(a, STR, node).term))
+    world.add_prim('ws_tokens', p_ws_tokens, VT.ws_tokens)
+
+    def p_is_list_val(eng, args, st, node):
+        a = eng.coerce(args[0], OPT_ATTRVAL, node)
+        return V(BOOL, z3.And(z3.Not(OPT_ATTRVAL.is_none(a.term)), ATTRVAL.is_alt(OPT_ATTRVAL._dt.val(a.term), 'AList')))
+    world.add_prim('is_list_val', p_is_list_val, VT.is_list_val)
+
+    def p_as_list(eng, args, st, node):
+        a = eng.coerce(args[0], OPT_ATTRVAL, node)
+        return V(TSeq(STR), ATTRVAL.get(OPT_ATTRVAL._dt.val(a.term), 'AList'))
+    world.add_prim('as_list', p_as_list, VT.as_list)
+
     def p_same(eng, args, st, node):
         return V(BOOL, eng.eq(args[0], args[1], node))
     world.add_prim('same', p_same, VT.same)
